@@ -189,20 +189,29 @@ def number_alphabet(rule, crate):
     if pt is None:
         rule.anchor_missing("parse_token")
         return
-    S = sim.Sim([crate], hooks={"call": lex.seq_hook([0x2D, 0x35])}, inline=lex.helper_inline(crate, NUM_INLINE),
-                max_visits=2, max_paths=5000)
-    paths = S.run(pt, args={2: 0x2D})
-    got = set()
-    for p in paths:
-        for ev in p.events:
-            if ev[0] == "call" and any(n.endswith("parse_num_literal") for n in ev[1]):
-                a = ev[2]
-                got.add((a[1] if len(a) > 1 else None, a[2] if len(a) > 2 else None))
-    if got == {(10, 0)}:
+    def literal_args(seq):
+        S = sim.Sim([crate], hooks={"call": lex.seq_hook(seq)}, inline=lex.helper_inline(crate, NUM_INLINE),
+                    max_visits=2, max_paths=5000)
+        got = set()
+        for p in S.run(pt, args={2: seq[0]}):
+            for ev in p.events:
+                if ev[0] == "call" and any(n.endswith("parse_num_literal") for n in ev[1]):
+                    a = [S._deref(x, p) for x in ev[2][1:]]
+                    got.add(tuple(repr(x) for x in a))
+        return got
+    # the sign travels as a bool or as a private enum: what matters is that `-5` reaches the numeric routine in radix
+    # 10 with a sign argument different from the one `5` and `+5` travel with
+    minus, plus, plain = literal_args([0x2D, 0x35]), literal_args([0x2B, 0x35]), literal_args([0x35, 0x20])
+    ok = len(minus) == 1 and len(plain) == 1 and plus == plain and minus != plain
+    if ok:
+        m, q = next(iter(minus)), next(iter(plain))
+        ok = len(m) == len(q) and "10" in m and sum(1 for x, y in zip(m, q) if x != y) == 1
+    if ok:
         rule.ok("parse_token: '-' followed by a digit -> parse_num_literal(radix 10, negative)", pt)
     else:
         rule.violation(pt.path, "alphabet:minus-digit",
-                       "'-' followed by a digit does not reach parse_num_literal(10, negative): %s" % sorted(got, key=repr), pt.loc())
+                       "'-' followed by a digit does not reach parse_num_literal in radix 10 with the negative sign "
+                       "(arguments for `-5`: %s, for `5`: %s, for `+5`: %s)" % (sorted(minus), sorted(plain), sorted(plus)), pt.loc())
 
 
 # ---------------------------------------------------------------- characters
